@@ -19,8 +19,9 @@ CONSTS0 = SN.constants()  # the converters read BEKERN_CATEGORIES: an API call m
 RULE = ('Hypothesis documents (profile "full": non-ASCII lyrics, quotes, commas) rendered with LF or CRLF line ends, with '
         'or without final newline, some with 1-2 malformed cells, written to a fresh temporary directory (removed at '
         'the end of every case).  Oracles: load(path) vs loads(text): equal deep snapshots, equal error lists, equal '
-        'exports; dump(doc, <missing dirs>/file, **options) for 3 drawn option sets written one after the other to the '
-        'SAME path: the file (read back byte-exact, UTF-8) equals dumps(doc, **options) each time; CLI --kern2ekern '
+        'exports; dump(doc, <missing dirs>/file, **options) for 5 drawn option sets (encoding, include, exclude, spine ids, '
+        'spine types, measure ranges incl. single measures, show_measure_numbers; sets that dumps itself rejects are '
+        'skipped) written one after the other to the SAME path (every second time over other content of exactly the new size): the file (read back byte-exact, UTF-8) equals dumps(doc, **options) each time; CLI --kern2ekern '
         '(in-process through kernpy.__main__.main with a patched sys.argv) on a single file with implicit and explicit '
         '--output_path and on a directory tree of 2-5 files in two levels with suffixes .krn/.kern/.txt, with and without '
         '-r: an .ekrn file appears for exactly the matching error-free files and holds exactly dumps(load(f), '
@@ -97,6 +98,18 @@ def option_sets(draw, n):
         o['exclude'] = draw(st.lists(st.sampled_from(cats.ALL), max_size=3, unique=True))
     if draw(st.integers(0, 2)) == 0:
         o['spine_ids'] = draw(st.lists(st.integers(0, n - 1), max_size=n, unique=True))
+    if draw(st.integers(0, 3)) == 0:
+        o['spine_types'] = draw(st.lists(st.sampled_from(D.ALL_TYPES), max_size=3, unique=True))
+    if draw(st.integers(0, 2)) == 0:
+        # measure ranges, single measures included; what dumps rejects is not compared
+        a = draw(st.integers(0, 4))
+        x = draw(st.integers(0, 3))
+        if x != 3:
+            o['from_measure'] = a
+        if x != 2:
+            o['to_measure'] = a + draw(st.sampled_from([0, 0, 1, 2]))
+    if draw(st.integers(0, 5)) == 0:
+        o['show_measure_numbers'] = draw(st.booleans())
     return o
 
 
@@ -104,7 +117,7 @@ def option_sets(draw, n):
 def cases(draw):
     main_ = draw(renderings())
     n = len(main_['doc']['types'])
-    opts = [draw(option_sets(n)) for _ in range(3)]
+    opts = [draw(option_sets(n)) for _ in range(5)]
     nfiles = draw(st.integers(3, 5))
     tree = []
     used = set()
@@ -133,6 +146,9 @@ def kw_of(o):
             kw[k] = kp.BEKERN_CATEGORIES if o[k] == 'BEKERN' else [TC[x] for x in o[k]]
     if 'spine_ids' in o:
         kw['spine_ids'] = list(o['spine_ids'])
+    for k in ('spine_types', 'from_measure', 'to_measure', 'show_measure_numbers'):
+        if k in o:
+            kw[k] = o[k]
     return kw
 
 
@@ -171,9 +187,15 @@ def check(case):
         classes.append('CRLF' if r['nl'] == '\r\n' else 'LF')
         # ---- dump vs dumps, several option sets to the SAME path
         q = os.path.join(td, 'out', 'x', 'y', 'result.krn')
-        for o in case['opts']:
+        for oi, o in enumerate(case['opts']):
             kw = kw_of(o)
-            exp = K.dumps(d2, **kw)
+            try:
+                exp = kp.dumps(d2, **kw)
+            except Exception:  # noqa  (e.g. a measure range the document does not have: nothing to compare)
+                classes.append('dumps-rejects-options')
+                continue
+            if oi % 2 == 1:
+                write(q, 'Z' * len(exp.encode('utf-8')))  # the target exists and has, by chance, the size of the new content
             try:
                 kp.dump(d1, q, **kw)
             except Exception as e:  # noqa
